@@ -144,7 +144,9 @@ var letsOK = []string{"let x = 5", "let lim = 2", "let s = 'a;b'", "let x = x + 
 	"let s = 'a\x00b'", "let s = \"tab\\there \\\\ \\\" q\"", "let s = 'del\x7f cr\rmid nbsp\u00a0 bad\xff'", "let s = 'it\\'s'", "let x = 5", "let lim = 2"}
 var letsBad = []string{"let q = nosuch", "let = 5", "let w = (", "let a.b = 1", "let v = `x`", "let u = T.a", "let 5 = x"}
 var queries = []string{"T | where a == x | take lim", "T | count", "T | where s == 'a;b' // c;d\n| take 1", "T\n| project a, b\n| sort by a", "U | join (T) on k | where x > 1", "T | extend z = y * 2",
-	"T | where a == -y", "T | top lim by a", "T | where t and a in (x, y)", "T | summarize n = count() by k | where n > x", "T | where b == \"q;\\\"\"", "`T;1` | take 1", "T | extend a+x", "T | where c == s", "T | project s, z", "T | where a == x | take lim"}
+	"T | where a == -y", "T | top lim by a", "T | where t and a in (x, y)", "T | summarize n = count() by k | where n > x", "T | where b == \"q;\\\"\"", "`T;1` | take 1", "T | extend a+x", "T | where c == s", "T | project s, z", "T | where a == x | take lim",
+	// quoted names and strings that end in a backslash right before the semicolon
+	"T | project `a\\`", "`t\\` | count", "T | where s == 'a\\\\'", "T | where s == \"q\\\\\" and `b\\` > x", "T | extend `c\\\\` = 'd\\\\'"}
 var invalid = []string{"T | where (", "T | bogus", "!", "T | take 1.5", "T | where 'unterminated\n", "T U", "T | where a ==", "| count", "T | join (U) on"}
 var seps = []string{"; ", ";\n", ";\n\n// a comment; with a semicolon\n", " ;\n", ";\r\n", ";\n   \n", "; // trailing comment\n", ";\t",
 	" // comment before the semicolon\n;\n", "\n;\n", "\n\n  ;  ", " //c\n\n;", "\t// x ; y\n ;\n"}
@@ -233,12 +235,43 @@ func repeatScript(rng *rand.Rand) *Script {
 	return s
 }
 
+// longScript: hundreds of statements, most of them spread over several lines,
+// several times the size of any line or read buffer.
+func longScript(rng *rand.Rand) *Script {
+	s := &Script{}
+	n := 60 + rng.Intn(400)
+	for i := 0; i < n; i++ {
+		var st string
+		switch r := rng.Intn(12); {
+		case r < 2:
+			st = fmt.Sprintf("let v%d = %d", rng.Intn(6), i)
+		case r < 3:
+			st = invalid[rng.Intn(len(invalid))]
+		case r < 5:
+			st = queries[rng.Intn(len(queries))]
+		default:
+			// a statement of its own text (the ordinal makes every one different)
+			st = fmt.Sprintf("T%d\n| where a == %d and s == 'stmt %d'\n| project a, b,\n    c%d = a * %d\n| sort by a desc\n| take %d", i%7, i, i, i, i%13, 1+i%50)
+		}
+		s.Stmts = append(s.Stmts, st)
+		s.Seps = append(s.Seps, []string{";\n", ";\n", "\n;\n", "; ", ";\r\n", ";\n\n"}[rng.Intn(6)])
+	}
+	if last := len(s.Stmts) - 1; !isLet(s.Stmts[last]) && rng.Intn(2) == 0 {
+		s.Seps[last] = ""
+	}
+	return s
+}
+
 func genScript(rng *rand.Rand) *Script {
 	switch rng.Intn(8) {
 	case 0, 1:
 		return chainScript(rng)
 	case 2:
 		return repeatScript(rng)
+	case 3:
+		if rng.Intn(4) == 0 {
+			return longScript(rng)
+		}
 	}
 	n := 1 + rng.Intn(6)
 	s := &Script{}
